@@ -84,6 +84,30 @@ REFACTORINGS = [
       (R, "        time.sleep(0.01)  # Keep the loop from being too tight.",
        "        _wakeup.wait(0.01)  # Keep the loop from being too tight.\n"
        "        _wakeup.clear()", 1)]),
+    ('child-flushes-stdout-instead-of-closing-it', 'C06 C07 C02',
+     [('src/zope/testrunner/process.py', "        sys.stdout.close()\n",
+       "        sys.stdout.flush()\n", 1)]),
+    ('threadsupport-asks-sys-directly', 'C19',
+     [('src/zope/testrunner/threadsupport.py', "        running = set(current_frames())",
+       "        running = set(sys._current_frames())", 1)]),
+    ('find-walks-with-scandir', 'C14 C15',
+     [('src/zope/testrunner/find.py', "    for dirpath, dirs, files in os.walk(dir):\n",
+       "    for dirpath, dirs, files in _walk(dir):\n", 1),
+      ('src/zope/testrunner/find.py', "def walk_with_symlinks(options, dir):\n",
+       "def _walk(top):\n"
+       "    dirs, files = [], []\n"
+       "    with os.scandir(top) as it:\n"
+       "        for entry in it:\n"
+       "            (dirs if entry.is_dir() else files).append(entry.name)\n"
+       "    yield top, dirs, files\n"
+       "    for d in dirs:\n"
+       "        p = os.path.join(top, d)\n"
+       "        if not os.path.islink(p):\n"
+       "            yield from _walk(p)\n\n\n"
+       "def walk_with_symlinks(options, dir):\n", 1)]),
+    ('tear-down-in-reverse-set-up-order', 'C01 C04 C16',
+     [(R, "    unneeded = order_by_bases(unneeded)\n    unneeded.reverse()",
+       "    unneeded = [ly for ly in reversed(list(setup_layers)) if ly in unneeded]", 1)]),
     ('summary-wording-untouched-but-helper-extracted', 'C12 C04 C02',
      [(R, "    # Return the total number of tests run.\n    return sum(r.num_ran for r in results)",
        "    # Return the total number of tests run.\n    total = 0\n"
@@ -113,8 +137,9 @@ def main():
             if bad:
                 ok = False
                 continue
-            r = subprocess.run(['/venv/bin/python', '-m', 'py_compile',
-                                os.path.join(scratch, R)], capture_output=True, text=True)
+            r = subprocess.run(['/venv/bin/python', '-m', 'py_compile'] +
+                               sorted({os.path.join(scratch, e[0]) for e in edits}),
+                               capture_output=True, text=True)
             if r.returncode:
                 print('%-48s does not compile: %s' % (name, r.stderr[-300:]))
                 ok = False
